@@ -137,45 +137,56 @@ def resolve (s : State) (f : Nat) : State :=
   { s with co := fun c => wakeOne (s.co c) ((s.fut f).waiters.count c),
            fut := upd s.fut f { s.fut f with ready := true, waiters := [] } }
 
+/-- the result is stored into the bound future, then `final_awaiter` resolves it -/
+def deliver (s : State) (c f : Nat) (o : Outcome) : State :=
+  resolve (setFut s f { s.fut f with out := some o, setBy := some c :: (s.fut f).setBy }) f
+
+/-- locals destroyed, frame destroyed (`me.destroy()` in `final_awaiter`) -/
+def retire (s : State) (c : Nat) (o : Outcome) (to : List Nat) : State :=
+  setCo s c { s.co c with st := St.done, outcome := some o, localDtors := (s.co c).localDtors + 1,
+                          deliveredTo := to ++ (s.co c).deliveredTo,
+                          frameFrees := (s.co c).frameFrees + 1, argDtors := (s.co c).argDtors + 1 }
+
 /-- `co_return` / `unhandled_exception` then `final_awaiter`: store the result into the bound future (if any),
 destroy locals, resolve the future, destroy the frame -/
 def finish (s : State) (c : Nat) (o : Outcome) : State :=
-  let s1 := match (s.co c).bound with
-    | none => s
-    | some f => resolve (setFut s f { s.fut f with out := some o, setBy := some c :: (s.fut f).setBy }) f
-  setCo s1 c { s1.co c with st := St.done, outcome := some o, localDtors := (s1.co c).localDtors + 1,
-                            deliveredTo := (match (s.co c).bound with | none => [] | some f => [f]) ++ (s1.co c).deliveredTo,
-                            frameFrees := (s1.co c).frameFrees + 1, argDtors := (s1.co c).argDtors + 1 }
+  match (s.co c).bound with
+  | none => retire s c o []
+  | some f => retire (deliver s c f o) c o [f]
 
 /-- `await_resume` on a ready future -/
 def consume (s : State) (c f : Nat) (caught : Bool) : State :=
-  let o := ((s.fut f).out).getD Outcome.canceled
-  match o with
-  | Outcome.val v => setCo s c { s.co c with st := St.running, acc := (s.co c).acc + v, saw := (f, o) :: (s.co c).saw }
-  | _ => if caught then setCo s c { s.co c with st := St.running, saw := (f, o) :: (s.co c).saw }
+  match ((s.fut f).out).getD Outcome.canceled with
+  | Outcome.val v =>
+      setCo s c { s.co c with st := St.running, acc := (s.co c).acc + v, saw := (f, Outcome.val v) :: (s.co c).saw }
+  | o => if caught then setCo s c { s.co c with st := St.running, saw := (f, o) :: (s.co c).saw }
          else finish s c o
+
+/-- the awaiter of `c` is pushed on `f`'s chain and `c` suspends (`co_awaiter::await_suspend` →
+`subscribe_check_ready`; for `async::co_awaiter` the chain of the fresh future is preset to the caller) -/
+def subscribe (s : State) (c f : Nat) (ct : Bool) : State :=
+  setCo (setFut s f { s.fut f with waiters := c :: (s.fut f).waiters }) c
+    { s.co c with st := St.awaiting f ct, suspends := (s.co c).suspends + 1 }
+
+/-- child `j` is created and started bound to a fresh future owned by `c` -/
+def spawnBound (s : State) (c j : Nat) : State :=
+  startCoro (newFut (create s j) (some c) []) j (some s.nextFut)
+
+def setSt (s : State) (c : Nat) (st : St) : State := setCo s c { s.co c with st := st }
 
 def execAct (s : State) (c : Nat) (a : Act) : State :=
   match a with
   | Act.compute => s
   | Act.awaitFut k ct =>
-      if k < s.nExt then setCo s c { s.co c with st := St.wantAwait k ct } else s
+      if k < s.nExt then setSt s c (St.wantAwait k ct) else s
   | Act.awaitChild j direct ct =>
       if (s.co j).st = St.absent ∧ j ≠ c then
-        let s1 := create s j
-        if direct then
-          let s2 := newFut s1 (some c) [c]
-          let s3 := startCoro s2 j (some s1.nextFut)
-          setCo s3 c { s3.co c with st := St.awaiting s1.nextFut ct, suspends := (s3.co c).suspends + 1 }
-        else
-          let s2 := newFut s1 (some c) []
-          let s3 := startCoro s2 j (some s1.nextFut)
-          setCo s3 c { s3.co c with st := St.wantAwait s1.nextFut ct }
+        if direct then subscribe (spawnBound s c j) c s.nextFut ct
+        else setSt (spawnBound s c j) c (St.wantAwait s.nextFut ct)
       else s
   | Act.detachChild j awaited =>
       if (s.co j).st = St.absent ∧ j ≠ c then
-        let s1 := startCoro (create s j) j none
-        if awaited then setCo s1 c { s1.co c with st := St.yielded } else s1
+        if awaited then setSt (startCoro (create s j) j none) c St.yielded else startCoro (create s j) j none
       else s
   | Act.dropChild j =>
       if (s.co j).st = St.absent ∧ j ≠ c then dropU (create s j) j else s
@@ -186,12 +197,10 @@ def execAct (s : State) (c : Nat) (a : Act) : State :=
 def stepCo (s : State) (c : Nat) : State × Res :=
   match (s.co c).st with
   | St.scheduled => (setCo s c { s.co c with st := St.running, bodyStarts := (s.co c).bodyStarts + 1 }, Res.unit)
-  | St.yielded => (setCo s c { s.co c with st := St.running }, Res.unit)
+  | St.yielded => (setSt s c St.running, Res.unit)
   | St.resumable f ct => (consume s c f ct, Res.unit)
   | St.wantAwait f ct =>
-      if (s.fut f).ready then (consume s c f ct, Res.unit)
-      else (setCo (setFut s f { s.fut f with waiters := c :: (s.fut f).waiters }) c
-              { s.co c with st := St.awaiting f ct, suspends := (s.co c).suspends + 1 }, Res.unit)
+      if (s.fut f).ready then (consume s c f ct, Res.unit) else (subscribe s c f ct, Res.unit)
   | St.running =>
       match (s.co c).pc with
       | [] => (finish s c (Outcome.val (s.co c).acc), Res.unit)
